@@ -212,6 +212,7 @@ type run struct {
 	errMsg   string
 	errDet   []*anypb.Any
 	faulty   bool // the scenario injects a stream fault somewhere
+	rpcID    string // set when the run shares its Transcoder with other runs
 
 	mu       sync.Mutex
 	disp     []dispatchObs
@@ -229,6 +230,9 @@ func (rn *run) msg(id int) proto.Message {
 	}
 	if rn.dict[id-1] == nil {
 		kind := rn.scn.Msgs[strconv.Itoa(id)]
+		if kind == "" && id == 1 && rn.scn.EmptyFirst {
+			kind = "empty"
+		}
 		if kind == "" && id == 1 && rn.scn.Cl.Form == "rest" && rn.scn.Cl.Method == "Query" {
 			kind = "empty" // a REST GET without path variables and query parameters carries the empty message
 		}
@@ -485,6 +489,9 @@ func (rn *run) buildRequest() (*http.Request, *scriptBody, []byte) {
 	}
 	for _, t := range rn.cHdrs {
 		hdr[t.name] = append([]string(nil), t.vals...)
+	}
+	if rn.rpcID != "" {
+		hdr.Set(rpcHeader, rn.rpcID)
 	}
 	for _, line := range cl.Extra {
 		k, v, _ := strings.Cut(line, ": ")
@@ -1741,7 +1748,7 @@ func runScenario(scn *scenario, seed int64) observation {
 		plain := *scn
 		plain.Cl.Chunks, plain.Hd.Reads, plain.Hd.Writes, plain.Hd.Flush = nil, nil, nil, false
 		ref := runOnce(&plain, seed)
-		obs.Ref = refObs{Has: true, Disp: ref.Disp, Cl: ref.Cl, Ret: ref.Ret}
+		obs.Ref = refObs{Has: true, Kind: "chunk", Disp: ref.Disp, Cl: ref.Cl, Ret: ref.Ret}
 	}
 	fixObs(&obs.Ref.Cl)
 	return obs
@@ -1754,18 +1761,71 @@ func fixObs(c *clientObs) {
 	}
 }
 
+// sharedTC is one Transcoder used by several RPCs (histories, concurrent RPCs): its backend
+// handlers find the scripted run of a request through the X-Vf-Rpc header.
+type sharedTC struct {
+	tc   *vanguard.Transcoder
+	mu   sync.Mutex
+	runs map[string]*run
+}
+
+const rpcHeader = "X-Vf-Rpc"
+
+func newSharedTC(cfg cfgSpec) (*sharedTC, error) {
+	sh := &sharedTC{runs: map[string]*run{}}
+	pick := func(kind string) http.Handler {
+		return http.HandlerFunc(func(w http.ResponseWriter, req *http.Request) {
+			sh.mu.Lock()
+			rn := sh.runs[req.Header.Get(rpcHeader)]
+			sh.mu.Unlock()
+			if rn == nil {
+				http.Error(w, "no scripted run for this request", http.StatusTeapot)
+				return
+			}
+			rn.serveBackend(kind, w, req)
+		})
+	}
+	var unknown http.Handler
+	if cfg.Unknown {
+		unknown = pick("unknown")
+	}
+	tc, err := buildTranscoder(cfg, pick("service"), unknown)
+	sh.tc = tc
+	return sh, err
+}
+
 func runOnce(scn *scenario, seed int64) observation {
+	return runOn(nil, scn, seed, "")
+}
+
+// runOn runs the scenario on the shared transcoder sh (or on a fresh one when sh is nil).
+func runOn(sh *sharedTC, scn *scenario, seed int64, rpcID string) observation {
 	rn := newRun(scn, seed)
 	obs := observation{SID: scn.SID, Ev: "rpc", Scn: scn, Disp: []dispatchObs{}}
-	var unknown http.Handler
-	if scn.Cfg.Unknown {
-		unknown = rn.unknownHandler()
-	}
-	tc, err := buildTranscoder(scn.Cfg, rn.handler(), unknown)
-	if err != nil {
-		obs.Ev = "skip"
-		obs.Note = "NewTranscoder: " + err.Error()
-		return obs
+	var tc *vanguard.Transcoder
+	if sh != nil {
+		tc = sh.tc
+		rn.rpcID = rpcID
+		sh.mu.Lock()
+		sh.runs[rpcID] = rn
+		sh.mu.Unlock()
+		defer func() {
+			sh.mu.Lock()
+			delete(sh.runs, rpcID)
+			sh.mu.Unlock()
+		}()
+	} else {
+		var unknown http.Handler
+		if scn.Cfg.Unknown {
+			unknown = rn.unknownHandler()
+		}
+		var err error
+		tc, err = buildTranscoder(scn.Cfg, rn.handler(), unknown)
+		if err != nil {
+			obs.Ev = "skip"
+			obs.Note = "NewTranscoder: " + err.Error()
+			return obs
+		}
 	}
 	req, body, sentBody := rn.buildRequest()
 	rn.sentReq = req.Clone(context.Background())
